@@ -130,6 +130,19 @@ func (s *Spec) GenMembers(ch Chooser, members []*Member, o GenOpts, depth int, e
 		}
 		if m.IsGroup {
 			n := 1 + ch.Intn(o.MaxEntries)
+			if len(m.Enums) > 0 {
+				// an enumerated count field: the number of entries must be one of the declared values
+				var allowed []int
+				for _, e := range m.Enums {
+					if v, err := strconv.Atoi(e); err == nil && v >= 1 && v <= 4 {
+						allowed = append(allowed, v)
+					}
+				}
+				if len(allowed) == 0 {
+					continue
+				}
+				n = allowed[ch.Intn(len(allowed))]
+			}
 			it := &Item{Tag: m.Tag, IsGroup: true, Def: m, Value: strconv.Itoa(n)}
 			for e := 0; e < n; e++ {
 				it.Entries = append(it.Entries, s.GenMembers(ch, m.Members, o, depth+1, true))
